@@ -131,6 +131,8 @@ static bool setupCell(const json::Object &cell, State &S, std::string &err) {
         if (auto sr = ro.getInteger("size_root")) { R.sizeRoot = (int)*sr; R.sizeK = ro.getInteger("size_k").getValueOr(0); R.sizeLo = 0; R.sizeHi = (i128)1 << 40; }
         else { R.sizeLo = R.sizeHi = ro.getInteger("size").getValueOr(0); }
         for (char c : head) D.bytes.push_back(constCell((uint8_t)c, prov));
+        if (auto hs = ro.getArray("headsets"))      // per-byte value sets of an initialised buffer
+          for (auto &h : *hs) { std::string hx = h.getAsString()->str(); ByteCell c; c.cs.reset(); c.prov = prov; for (int b = 0; b < 32 && (size_t)(2 * b + 1) < hx.size(); b++) { unsigned v = (unsigned)std::stoi(hx.substr(2 * b, 2), nullptr, 16); for (int i = 0; i < 8; i++) if (v & (1u << i)) c.cs.set(b * 8 + i); } D.bytes.push_back(c); }
         if (ro.getBoolean("fieldmap").getValueOr(false)) R.fieldmap = 0;
         if (ro.getBoolean("heap").getValueOr(false)) R.kind = RK_HEAP;
         if (auto arv = ro.getInteger("align_root")) R.alignRoot = (int)*arv;
